@@ -44,10 +44,10 @@ where
         }
     }
     let depth = 2;
-    // quick tier, types with more than 24 units: the right operand's unit ranges over the left one, the reference unit,
+    // types with more than 24 units (thorough: more than 30): the right operand's unit ranges over the left one, the reference unit,
     // the neighbour, the smallest, the largest and one scattered unit instead of all of them
     let n = b.n();
-    let wide = thorough() || n <= 24;
+    let wide = if thorough() { n <= 30 } else { n <= 24 };
     let r0 = b.tm.ref_index().unwrap_or(0);
     let fb_a: Vec<A> = if thorough() { small.clone() } else { vec![amt::parse("1"), amt::parse("17.4")] };
     let fb_b: Vec<A> = vec![amt::parse("1"), amt::parse("0.37")];
